@@ -966,6 +966,93 @@ impl StunClient {
     pub fn events(&mut self) -> Vec<StunClientEvent> {
         self.transaction_events.events()
     }
+
+    /// Read-only snapshot of the client state used by the verification harness.
+    #[cfg(rustun_verif)]
+    pub fn verif_snapshot(&self, epoch: Instant) -> VerifSnapshot {
+        let mut outstanding: Vec<(TransactionId, bool)> = self
+            .transactions
+            .iter()
+            .map(|(id, t)| (*id, t.instant.is_some()))
+            .collect();
+        outstanding.sort();
+        let mut timeouts: Vec<(TransactionId, Duration, Duration)> = self
+            .timeouts
+            .verif_entries()
+            .into_iter()
+            .map(|(id, at, d)| (id, at - epoch, d))
+            .collect();
+        timeouts.sort();
+        let (rtt, last_request) = match &self.rtt {
+            StunRttCalcuator::Reliable(_) => (None, None),
+            StunRttCalcuator::Unreliable(h) => {
+                (Some(h.rtt.verif_state()), h.last_request.map(|i| i - epoch))
+            }
+        };
+        let mechanism = match &self.mechanism {
+            None => VerifMech::None,
+            Some(CredentialMechanismClient::ShortTerm(m)) => {
+                let (agreed, markers) = m.verif_state();
+                VerifMech::ShortTerm { agreed, markers }
+            }
+            Some(CredentialMechanismClient::LongTerm(m)) => {
+                let (state, params, markers) = m.verif_state();
+                VerifMech::LongTerm {
+                    state,
+                    params,
+                    markers,
+                }
+            }
+        };
+        VerifSnapshot {
+            outstanding,
+            timeouts,
+            rtt,
+            last_request,
+            mechanism,
+        }
+    }
+}
+
+/// Snapshot returned by [`StunClient::verif_snapshot`]
+#[cfg(rustun_verif)]
+#[derive(Debug, Clone, PartialEq, Eq)]
+pub struct VerifSnapshot {
+    /// Outstanding transaction ids and whether their send instant is still recorded
+    pub outstanding: Vec<(TransactionId, bool)>,
+    /// Pending timeouts: id, armed-at (since epoch), duration
+    pub timeouts: Vec<(TransactionId, Duration, Duration)>,
+    /// Estimator state (rto, srtt, rttvar) on unreliable transports
+    pub rtt: Option<(Duration, Duration, Duration)>,
+    /// Instant of the last request (since epoch)
+    pub last_request: Option<Duration>,
+    /// Credential mechanism state
+    pub mechanism: VerifMech,
+}
+
+/// Credential mechanism part of [`VerifSnapshot`]
+#[cfg(rustun_verif)]
+#[derive(Debug, Clone, PartialEq, Eq)]
+#[allow(clippy::type_complexity)]
+pub enum VerifMech {
+    /// No mechanism
+    None,
+    /// Short-term: agreed algorithm and marked transactions
+    ShortTerm {
+        /// agreed integrity algorithm
+        agreed: Option<crate::Integrity>,
+        /// transactions whose responses failed authentication
+        markers: Vec<TransactionId>,
+    },
+    /// Long-term: state tag, cached parameters, marked transactions
+    LongTerm {
+        /// 0 first, 1 retry-401, 2 retry-438, 3 subsequent
+        state: u8,
+        /// realm, nonce, algorithms, algorithm, sha256?, user-hash?
+        params: Option<(String, String, Option<Vec<u16>>, Option<u16>, bool, bool)>,
+        /// transactions whose responses failed authentication
+        markers: Vec<TransactionId>,
+    },
 }
 
 fn process_integrity_error(
